@@ -217,7 +217,7 @@ let render_snapshot (c : client) =
 
 let parse_obs (iline : string) (jline : string) (prev : string option) =
   let f = Array.of_list (String.split_on_char ';' iline) in
-  if Array.length f <> 6 then None else begin
+  if Array.length f <> 7 then None else begin
     let ret = match f.(0) with
       | "ok" -> OOk | "maxout" -> OMaxOut | "discarded" -> ODiscarded | "ignored" -> OIgnored
       | "stuncheck" -> OStunCheck | "internal" -> OInternal | "panic" -> OPanic
@@ -243,14 +243,18 @@ let parse_obs (iline : string) (jline : string) (prev : string option) =
     let ts = List.map (fun x -> nn (List.hd (String.split_on_char '.' x))) (lst f.(2)) in
     let hs = List.map (fun x -> match String.split_on_char '.' x with [i; a; d] -> ((nn i, nn a), nn d) | _ -> failwith "H entry") (lst f.(3)) in
     let ks = List.map nn (lst f.(4)) in
-    (* "nothing changed" also covers the RTT estimator state and the instant of the last request (fact rtt=...) *)
-    let rttf = List.fold_left (fun acc t -> if String.length t > 4 && String.sub t 0 4 = "rtt=" then t else acc) "rtt=?" (split_sp jline) in
-    let key = f.(2) ^ ";" ^ f.(3) ^ ";" ^ f.(5) ^ ";" ^ rttf in
+    (* "nothing changed" also covers the RTT estimator state and the instant of the last request (field R=...) *)
+    let key = f.(2) ^ ";" ^ f.(3) ^ ";" ^ f.(5) ^ ";" ^ f.(6) in
     let same = match prev with Some p -> p = key | None -> false in
     Some ({ ob_ret = ret; ob_events = evs; ob_T = ts; ob_H = hs; ob_K = ks; ob_same = same }, key)
   end
 
+let render_est = function
+  | None -> "R=-"
+  | Some e -> Printf.sprintf "R=%d.%d.%d.%s" (int_of_n e.e_calc.rc_rto) (int_of_n e.e_calc.rc_srtt) (int_of_n e.e_calc.rc_rttvar)
+                (match e.e_last with Some l -> string_of_int (int_of_n l) | None -> "-")
 let agent_suite () =
+  let est = ref None in
   let idx = ref 0 in
   let cl = ref None in
   let pending = ref None in
@@ -273,14 +277,19 @@ let agent_suite () =
           let cc = { cc_mech = nn mech; cc_fp = fp = "1"; cc_reliable = rel = "1"; cc_rto = nn rto; cc_gran = nn gran } in
           mcf := Some ({ mc_reliable = rel = "1"; mc_rm = nn rm; mc_rc = nn rc; mc_limit = nn limit }, cc);
           ms := Some (mall0 cc);
+          est := (if rel = "1" then None else Some (est0 (nn rto) (nn gran)));
           (* the snapshot of a fresh client *)
           prev := Some ("T=-;H=-;" ^ (match mech with "0" -> "M=none" | "1" -> "M=st:0" | "2" -> "M=st:1" | "3" -> "M=st:2" | _ -> "M=lt:0:-")
-                        ^ ";" ^ (if rel = "1" then "rtt=-" else "rtt=" ^ rto ^ ".0.0.-"))
+                        ^ ";" ^ (if rel = "1" then "R=-" else "R=" ^ rto ^ ".0.0.-"))
         | _ -> failwith ("bad H: " ^ line)
       end else if n > 2 && line.[0] = 'O' then begin
         let f = Array.of_list (split_sp line) in
         let op, mo = match f.(1) with
-          | "S" -> Send (nn f.(2), nn f.(3), nn f.(4), nn f.(5), parse_attrs f.(7), f.(6) = "1"), MSend (nn f.(2), nn f.(3), nn f.(4), nn f.(5), parse_attrs f.(7))
+          | "S" ->
+            (* the model computes the initial interval itself on unreliable transport (exact estimator, Agent/RttExact.v);
+               the monitors judge the interval the implementation reported *)
+            let r_model = (match !est with Some e -> est_rto_for_send e (nn f.(2)) | None -> nn f.(4)) in
+            Send (nn f.(2), nn f.(3), r_model, nn f.(5), parse_attrs f.(7), f.(6) = "1"), MSend (nn f.(2), nn f.(3), nn f.(4), nn f.(5), parse_attrs f.(7))
           | "N" -> Indication (nn f.(2), nn f.(3), parse_attrs f.(5), f.(4) = "1"), MInd (nn f.(3), parse_attrs f.(5))
           | "R" ->
             let m = { m_class = class_of_int (int_of_string f.(4)); m_method = nn f.(5); m_id = nn f.(6); m_attrs = parse_attrs f.(7) } in
@@ -294,7 +303,8 @@ let agent_suite () =
           let i = !idx in incr idx;
           let ((c', rep), evs) = step c op in
           cl := Some c';
-          emit (Printf.sprintf "M %d %s;%s;%s" i (render_reply rep) (render_events evs) (render_snapshot c'));
+          est := (match !est with Some e -> Some (est_step e c op rep evs) | None -> None);
+          emit (Printf.sprintf "M %d %s;%s;%s;%s" i (render_reply rep) (render_events evs) (render_snapshot c') (render_est !est));
           last_i := Some (i, String.sub line 2 (n - 2))
         | _ -> failwith "I without H/O"
       end else if n >= 1 && line.[0] = 'J' then begin
